@@ -789,7 +789,7 @@ def compare_vcs(ctx, out, pending):
         x = sexp.loads(line)
         if x[4] != ["T", "T", "T", "T"]:
             # the decidable hypotheses of sem_adequate_ws / print_parse_* must cover what is generated and what compute_wp builds
-            ctx.broken("hypotheses:c20:wf", "wsCom / wfC pre / wfC post / wfC and namesOK of all VCs = %s on %s" % (x[4], rec["key"]))
+            ctx.broken("hypotheses:c20:wf", "wsCom&okCom / okE pre / okE post / okE of all VCs = %s on %s" % (x[4], rec["key"]))
         ctx.count("wf-hypotheses-checked")
         m_vcs = sorted(repr(hol_norm(u_expr(v))) for v in x[2])
         m_strs = sorted(sexp.dec(t) for t in x[3])
@@ -2245,14 +2245,15 @@ MANIFEST = {
             "literal -- reads the printed condition / expression / program back as exactly the printer's tokens, for names that are identifiers "
             "and not keywords: nameOK), print_parse_tokens, print_parse_id, print_parse_string, print_parse_sem (str(e) parsed by parser2's lexer and "
             "grammar, as LALR(1) with shift preference reads it, is e again up to the reading of negative constants, hence has the same value in "
-            "every state; for every wfC condition), parse_produces_wfC, reparse_of_parsed (every condition the grammar returns is wfC). "
+            "every state; for every wfC condition), parse_produces_wfC, reparse_of_parsed (every condition the grammar returns is wfC), vcs_in_language + vcs_shown_sem (every VC of a program of the "
+            "assertion language is again in it, hence every VC string shown parses back to a condition with the value of the VC computed). "
             "NOT proved: a parse-back theorem for programs (Seq(Cond(..),c) has no concrete syntax: known finding); anything about arrays, fields, "
             "forall (convert_hol does not exist for them and get_vcs raises: out of scope); termination. "
             "COMPARED per run, model against code, observable results only: VC strings and VC HOL terms of get_lines/get_vcs (multisets), "
             "assumptions of imp.vcg_norm's theorem on triples built as HOL terms (multiset), Op.__str__, print_com text, cond_parser / com_parser "
             "results (valid and token-perturbed strings), token lists of the model lexer and of Lark's lexer on every printed string and on "
             "character-perturbed strings, expression values, interpreter results, eval_Sem final states; the decidable hypotheses wfC, namesOK, "
-            "nameOK, wsCom, lexOKc are evaluated by the driver on every generated condition, VC, name, program and cond_parser result. "
+            "nameOK, wsCom, okCom, okE, lexOKc are evaluated by the driver on every generated condition, VC, name, program and cond_parser result. "
             "JUDGED on the implementation's own outputs by the harness' reference evaluator / interpreter on concrete states: (a) VC HOL terms all "
             "true on -3..3 and on every visited state ==> executions from every grid state satisfying the precondition end in the postcondition "
             "(get_vcs; likewise 0..3 for imp.vcg_norm); (b) each shown VC string re-parsed by the real parser has the value of its HOL term; "
